@@ -20,6 +20,24 @@ def projects(tier, seed):
             "src/sub/c.rs": b'fn c() {\n    log::info!("[ref: 4] four");\n}\n'}
     ps.append(fault.Project(full, label="t_complete"))
     ps.append(fault.Project(dict(full), lock=core.lock_text(5), label="t_complete_lock"))
+    # fully referenced trees that also hold files which cannot be read as text (first, in the middle, last in walk order): an
+    # interrupted --check must not pass there either, and the stop request must be seen while such a file is in hand
+    unread = dict(full)
+    unread["src/aa_first_unreadable.rs"] = b'fn u() { info!("caf\xe9"); }\n'
+    unread["src/m_unreadable.rs"] = b'\xff\xfe\x00broken'
+    unread["src/zz/zz_last_unreadable.rs"] = b'fn z() { info!("\xc3("); }\n'
+    ps.append(fault.Project(unread, label="t_complete_with_unreadable"))
+    mixed = {"src/a.rs": b'fn a() {\n    info!("needs one");\n}\n', "src/b_unreadable.rs": b'fn u() { info!("caf\xe9"); }\n',
+             "src/c.rs": b'fn c() {\n    warn!("needs one too");\n}\n', "src/zz_unreadable.rs": b'\xff\xfe'}
+    ps.append(fault.Project(mixed, label="t_missing_with_unreadable"))
+    # the first file in walk order needs references, all later ones are complete (a failure on the first one plus a stop request
+    # while the rest is being looked at: nothing is "left to do" except the file that failed)
+    ps.append(fault.Project({"src/a_needs.rs": b'fn a() {\n    info!("needs one");\n    warn!("needs another");\n}\n',
+                             "src/b.rs": b'fn b() {\n    error!("[ref: 3] three");\n}\n', "src/c.rs": b'fn c() {\n    info!("[ref: 4] four");\n}\n',
+                             "src/d/e.rs": b'fn e() {\n    warn!("[ref: 5] five");\n}\n', "src/z.rs": b'fn z() {\n    info!("[ref: 6] six");\n}\n'},
+                            use_cache=False, label="t_head_needs_tail_complete"))
+    # a source file of a few hundred KB (read, parsed and written in several steps)
+    ps.append(fault.small_project(rnd, nfiles=2, stmts=(1, 2), big=300000, label="t_big300k"))
     if tier == "thorough":
         ps.append(fault.small_project(rnd, nfiles=6, stmts=(1, 4), label="t3"))
         ps.append(fault.small_project(rnd, nfiles=2, stmts=(1, 2), big=50000, label="t4big"))
@@ -112,8 +130,12 @@ def judge(proj, rec, box, cfg, built, expected, k, mode, sync=True):
 def work(job):
     built, pi, proj, expected, k, signame, mode = job[:7]
     second = job[7] if len(job) > 7 else None
+    faultrule = job[8] if len(job) > 8 else None
     res = {"evaluations": 1, "nontrivial": [], "violations": [], "samples": [], "inconclusive": {}, "counters": {}}
     rules = "n=%d,act=sig:%d" % (k, SIGS[signame])
+    if faultrule:
+        rules = faultrule + ";" + rules
+        res["counters"]["fault_plus_signal_injections"] = 1
     if second:
         rules += ";n=%d,act=sig:%d" % (k + second[0], SIGS[second[1]])
         res["counters"]["double_signal_injections"] = 1
@@ -121,7 +143,7 @@ def work(job):
         cfg = proj.materialise(box)
         rec = core.run_breadlog(built, box, cfg, check=(mode == "check"), rules=rules, timeout=120, stdio_ops=True,
                                 stdin_tty=bool(second and len(second) > 2 and second[2]))
-        fired = [o for o in (rec.shim or []) if o["fired"]]
+        fired = [o for o in (rec.shim or []) if o["fired"] and o["fired"].startswith("sig")]
         if rec.timed_out:
             res["inconclusive"]["timeout"] = 1
             return res
@@ -141,7 +163,7 @@ def work(job):
         res["violations"].append({"signature": "C18.%s|SIG%s|%s|%s" % (clause, signame, mode, phase),
                                   "detail": dict(detail, k=k, exit=rec.ended(), stdout_tail=rec.out[-250:],
                                                  ops=[(o["n"], o["kind"], os.path.basename(o["path"])) for o in (rec.shim or [])][max(0, k - 3):k + 6]),
-                                  "case": {"project": pi, "k": k, "sig": signame, "mode": mode, "second": second}})
+                                  "case": {"project": pi, "k": k, "sig": signame, "mode": mode, "second": second, "faultrule": faultrule}})
     if pi == 0 and k in (5, 14) and signame == "INT":
         res["samples"].append({"project": proj.label, "rule": rules, "mode": mode, "phase": phase, "ended": rec.ended(),
                                "post_states": info["states"], "ops_after_signal": [(o["n"], o["kind"], os.path.basename(o["path"])) for o in (rec.shim or []) if o["n"] >= k][:8]})
@@ -208,6 +230,12 @@ def main(tier):
             for k in ks:
                 for s in SIGS:
                     jobs.append((built, pi, proj, expected, k, s, mode))
+            if proj.label == "t_head_needs_tail_complete" and mode == "edit":
+                # the first file's rename fails (EXDEV / EACCES), then the stop request arrives at each later operation
+                ren = next((o["n"] for o in ops if o["kind"] == "rename" and "Breadlog.lock" not in (o["path"] or "")), None)
+                for k in [x for x in ks if ren and x > ren]:
+                    for en in (18, 13):
+                        jobs.append((built, pi, proj, expected, k, rnd.choice(list(SIGS)), mode, None, "kind=rename,dst~=a_needs.rs,act=errno:%d" % en))
             # a second signal while the run is stopping (same and the other signal, 1-3 operations later)
             for k in ks[::3]:
                 for s, s2 in (("TERM", "INT"), ("INT", "INT"), ("TERM", "TERM")):
@@ -256,8 +284,8 @@ def replay_witness(w, ck=None, built=None):
     proj = ps[c["project"]]
     ops, after, rec, expected, lock = fault.clean_reference(built, proj, check=(c["mode"] == "check"), stdio_ops=True)
     job = (built, c["project"], proj, expected, c["k"], c["sig"], c["mode"])
-    if c.get("second"):
-        job = job + (tuple(c["second"]),)
+    if c.get("second") or c.get("faultrule"):
+        job = job + (tuple(c["second"]) if c.get("second") else None, c.get("faultrule"))
     r = work(job)
     return bool(r["violations"])
 
